@@ -244,7 +244,7 @@ static inline std::string strOf(size_t n, char c)
 {
     std::string s(n, c);
     for (size_t i = 0; i < n; ++i)
-        s[i] = (char) ('a' + (i + c) % 26);
+        s[i] = (i % 5 == 3) ? (char) (0x80 + (i + c) % 0x7F) : (char) ('a' + (i + c) % 26);   // every 5th character has the high bit set (UTF-8 text)
     return s;
 }
 
